@@ -1,5 +1,6 @@
 import TracklibVerif.Props.C18
 import TracklibVerif.Lemmas.DTWFastSession
+import TracklibVerif.Model.DTWHyp
 /-! # C18 — sessions that include the fast variant (modes FDTW = 3 / 107)
 
 `session_history_irrelevant` / `session_history_irrelevant_real` (Props/C18.lean) exclude the FDTW modes. Here they are included:
@@ -170,6 +171,41 @@ theorem session_history_irrelevant_all (pow : α → α → α) (G : Geom α) (r
   session_history_irrelevant_fdtw pow G root ofNat big steps env hwf
     (fun st hs hmode a b ha hb => fast_call_ok pow G big st.p st.dim a.pts b.pts (hnn st hs hmode) hpow (hbig st hs hmode a b ha hb))
 
+/-- **the monitor the driver runs is sound** (`C18.hyp`, `Model/DTWHyp.lean`): when `fastHypCheck` accepts two tracks — every point
+distance `B ≥ 0`, `weight(0, B) ≥ 0`, every candidate cost `weight(T[i,j], D[i',j'])` below `big` — the hypotheses of `fdtw_equal` /
+`match_fdtw_correct` / `match_fdtw_real_correct` / `session_history_irrelevant_fdtw` hold of them, for every accumulation `_p2weight`
+can return (`weightX pow e`: `A + B**k`, `A + (B != 0)`, `max`, `A + B**x` whatever `B**x` computes). On the generated inputs the
+check is evaluated in `Float` with `B**x = Float.pow`: the hypotheses on `B**x` are discharged there by the run, not assumed. -/
+theorem fast_hyp_check_sound (pow : α → α → α) (big : α) (e : PExp α) (dist : Pt α → Pt α → α) (t1 t2 : List (Pt α))
+    (h : fastHypCheck big (weightX pow e) dist t1 t2 = true) : FastHyp big (weightX pow e) dist t1 t2 := by
+  unfold fastHypCheck at h
+  simp only [Bool.and_eq_true, List.all_eq_true] at h
+  obtain ⟨hA, hB⟩ := h
+  have hmem : ∀ i j, i < t2.length → j < t1.length → (i, j) ∈ latticeCells t1.length t2.length := by
+    intro i j hi hj
+    unfold latticeCells
+    exact List.mem_flatMap.mpr ⟨i, List.mem_range.mpr hi, List.mem_map.mpr ⟨j, List.mem_range.mpr hj, rfl⟩⟩
+  have hdc : ∀ i j, i < t2.length → j < t1.length →
+      cellAt (distCols dist t1 t2) i j = some (Dmat dist t1 t2 i j) := by
+    intro i j hi hj
+    rw [distCols_eq]
+    exact cellAt_dcols _ _ _ i j hi hj
+  refine ⟨fun a b d hab => weightX_mono pow e a b d hab, ?_, ?_⟩
+  · intro a i j hi hj
+    have := hA (i, j) (hmem i j hi hj)
+    simp only [hdc i j hi hj, Bool.and_eq_true, decide_eq_true_eq] at this
+    obtain ⟨h0, h1⟩ := this
+    cases e with
+    | norm v => exact weight_infl v a _ h0
+    | real x =>
+      have h2 : 0 ≤ pow (Dmat dist t1 t2 i j) x := by simpa [weightX] using h1
+      exact le_add_of_nonneg_right h2
+  · intro i j i' j' hi hj hi' hj'
+    have := hB (i, j) (hmem i j hi hj) (i', j') (hmem i' j' hi' hj')
+    rw [distCols_eq] at this
+    simp only [cellAt_table _ _ _ _ _ i j hi hj, cellAt_dcols _ _ _ i' j' hi' hj', decide_eq_true_eq] at this
+    exact this
+
 end fieldFast
 
 /-! ### the hypotheses are satisfiable; a concrete session -/
@@ -237,5 +273,12 @@ example :
         | .matched o => o.rows.map (fun r => r.diff.getD 5)
         | _ => [])
     = [[1, 0], [0, 2]] := by decide +kernel
+
+/-- the monitor accepts a concrete pair of tracks (heights `0, 2, 1` against `1, 3`, `dim = 1`, `p = 2`, `big = 1000`) and rejects it
+when `big = 5` is below a candidate cost — `fast_hyp_check_sound` is not vacuous and the check is not constantly true -/
+example : fastHypCheck (α := ℚ) 1000 (weightX (fun b _ => b) (.norm (.nat 2))) (distance id 1)
+    [⟨0, 0, 0⟩, ⟨0, 0, 2⟩, ⟨0, 0, 1⟩] [⟨0, 0, 1⟩, ⟨0, 0, 3⟩] = true ∧
+  fastHypCheck (α := ℚ) 5 (weightX (fun b _ => b) (.norm (.nat 2))) (distance id 1)
+    [⟨0, 0, 0⟩, ⟨0, 0, 2⟩, ⟨0, 0, 1⟩] [⟨0, 0, 1⟩, ⟨0, 0, 3⟩] = false := by decide +kernel
 
 end TV.C18
